@@ -48,6 +48,23 @@ fn check_int(ctx: &mut Ctx, r: Reg, i: i64) {
             }
         }
     }
+    // label decoding restricted to this registry (every registry, not only those the crate's own
+    // structures use): a registered value decodes to its name, anything else is rejected
+    if (-300..=12000).contains(&i) || reg {
+        ctx.eval();
+        match registry::crate_decode_reg_label(r, i) {
+            Some(back) => {
+                if !reg || back != i {
+                    ctx.violation(&format!("C17/label-decoding/{:?}", r), format!("RegisteredLabel<{:?}> decodes {} to the name with value {} (registered: {})", r, i, back, reg), J::obj(vec![("i", J::Int(i))]));
+                }
+            }
+            None => {
+                if reg {
+                    ctx.violation(&format!("C17/label-decoding-rejects-registered/{:?}", r), format!("RegisteredLabel<{:?}> rejects the registered value {}", r, i), J::obj(vec![("i", J::Int(i))]));
+                }
+            }
+        }
+    }
     if let Some(p) = registry::crate_is_private(r, i) {
         ctx.eval();
         if p != (i < registry::PRIVATE_MAX) {
@@ -67,6 +84,9 @@ fn check_label_positions(ctx: &mut Ctx, i: i64) {
     let cases: Vec<(Ty, Vec<u8>, &str)> = vec![
         (Ty::Header, m(vec![(Item::int(1), n.clone())]), "header alg"),
         (Ty::Header, m(vec![(Item::int(2), Item::Array(vec![n.clone()]))]), "crit element"),
+        (Ty::Header, m(vec![(Item::int(2), Item::Array(vec![Item::int(1), n.clone()]))]), "crit second element"),
+        (Ty::Header, m(vec![(Item::int(2), Item::Array(vec![n.clone(), Item::int(4), Item::text("x")]))]), "crit first of three"),
+        (Ty::Key, m(vec![(Item::int(1), Item::int(1)), (Item::int(4), Item::Array(vec![Item::int(1), n.clone()]))]), "key op second element"),
         (Ty::Header, m(vec![(Item::int(3), n.clone())]), "content type"),
         (Ty::Key, m(vec![(Item::int(1), n.clone())]), "kty"),
         (Ty::Key, m(vec![(Item::int(1), Item::int(1)), (Item::int(3), n.clone())]), "key alg"),
